@@ -380,6 +380,167 @@ def epub(variant: str) -> tuple[bytes, dict]:
     return _zip(members, stored_first="mimetype"), {"has": ["p1" + tag, "p2" + tag], "not": []}
 
 
+# ------------------------------------------------------------------------------------------------------------ several candidates for a "first match wins" choice
+def _epub_pkg(tag: str, items: list[tuple[str, str, str, bytes]], spine: list[str], md: str, extra_attr: dict | None = None) -> bytes:
+    """items: (id, href, media-type, data) in manifest order."""
+    extra_attr = extra_attr or {}
+    man = "".join(f'<item id="{i}" href="{h}" media-type="{m}"{extra_attr.get(i, "")}/>' for i, h, m, _ in items)
+    opf = ('<?xml version="1.0" encoding="UTF-8"?><package xmlns="http://www.idpf.org/2007/opf" version="3.0" unique-identifier="uid">'
+           f'<metadata xmlns:dc="http://purl.org/dc/elements/1.1/" xmlns:opf="http://www.idpf.org/2007/opf">{md}</metadata><manifest>{man}</manifest>'
+           f'<spine>{"".join(f"""<itemref idref="{i}"/>""" for i in spine)}</spine></package>')
+    members = [("mimetype", b"application/epub+zip"),
+               ("META-INF/container.xml", b'<?xml version="1.0"?><container version="1.0" xmlns="urn:oasis:names:tc:opendocument:xmlns:container"><rootfiles>'
+                                          b'<rootfile full-path="OEBPS/content.opf" media-type="application/oebps-package+xml"/></rootfiles></container>'),
+               ("OEBPS/content.opf", opf.encode())]
+    seen = set()
+    for _i, h, _m, d in items:
+        if h not in seen:
+            seen.add(h)
+            members.append(("OEBPS/" + h, d))
+    return _zip(members, stored_first="mimetype")
+
+
+def _xhtml(title: str, body: str) -> bytes:
+    return (f'<?xml version="1.0" encoding="UTF-8"?><html xmlns="http://www.w3.org/1999/xhtml"><head><title>{title}</title></head><body>{body}</body></html>').encode()
+
+
+def epub_multi(variant: str) -> tuple[bytes, dict]:
+    """EPUB packages in which a "first one wins" choice has several candidates (the document order of the manifest / metadata decides):
+
+    navs      five XHTML items whose path contains nav / toc, each with its own list of links (+ an NCX)
+    navs2     the same candidates in another manifest order
+    meta      three dc:title / dc:creator / dc:identifier / dc:language elements, two cover declarations
+    dupid     two manifest items under one id (different hrefs), two ids for one href, a spine naming both
+    covers    three image items that could be "the cover" (properties, meta name=cover, file name)
+    """
+    tag = "isoepubmulti" + variant
+    X = "application/xhtml+xml"
+    md = f'<dc:title>title {tag}</dc:title><dc:creator>creator {tag}</dc:creator><dc:language>en</dc:language><dc:identifier id="uid">urn:uuid:{tag}</dc:identifier>'
+    ch = [("ch1", "ch1.xhtml", X, _xhtml("c1" + tag, f"<h1>h1{tag}</h1><p>p1{tag}</p>")), ("ch2", "ch2.xhtml", X, _xhtml("c2" + tag, f"<h1>h2{tag}</h1><p>p2{tag}</p>"))]
+    has = ["p1" + tag, "p2" + tag]
+    if variant in ("navs", "navs2"):
+        def nav(name, n):
+            links = "".join(f'<li><a href="ch{1 + (k % 2)}.xhtml#{name}{k}">{name} entry {k} {tag}</a></li>' for k in range(n))
+            return _xhtml(name + tag, f'<nav xmlns:epub="http://www.idpf.org/2007/ops" epub:type="toc"><ol>{links}</ol></nav>')
+        cands = [("nav", "nav.xhtml", X, nav("nav", 2)), ("toc", "toc.xhtml", X, nav("toc", 3)), ("navigation", "text/navigation.xhtml", X, nav("navigation", 4)),
+                 ("protocols", "protocols.xhtml", X, nav("protocols", 5)), ("octocat", "octocat.xhtml", X, nav("octocat", 1))]
+        if variant == "navs2":
+            cands = cands[2:] + cands[:2]
+        ncx = ('<?xml version="1.0" encoding="UTF-8"?><ncx xmlns="http://www.daisy.org/z3986/2005/ncx/" version="2005-1"><navMap><navPoint id="n1" playOrder="1"><navLabel><text>ncx entry '
+               + tag + '</text></navLabel><content src="ch1.xhtml"/></navPoint></navMap></ncx>').encode()
+        items = ch + cands + [("ncx", "toc.ncx", "application/x-dtbncx+xml", ncx)]
+        return _epub_pkg(tag, items, ["ch1", "ch2", "protocols", "octocat"], md, {"nav": ' properties="nav"'}), {"has": has, "not": []}
+    if variant == "meta":
+        md = "".join(f'<dc:title>title{k} {tag}</dc:title><dc:creator>creator{k} {tag}</dc:creator><dc:identifier id="uid{k}">urn:uuid:{tag}{k}</dc:identifier><dc:language>{l}</dc:language>'
+                     for k, l in enumerate(("en", "de", "fr"))) + '<meta name="cover" content="img1"/><meta name="cover" content="img2"/><dc:date>2020-01-02</dc:date><dc:date>2021-02-03</dc:date>'
+        items = ch + [("img1", "img/a.png", "image/png", _png(7)), ("img2", "img/b.png", "image/png", _png(8))]
+        return _epub_pkg(tag, items, ["ch1", "ch2"], md.replace('id="uid0"', 'id="uid"')), {"has": has, "not": []}
+    if variant == "dupid":
+        items = ch + [("ch2", "ch2b.xhtml", X, _xhtml("c2b" + tag, f"<p>p2b{tag}</p>")), ("ch3", "ch1.xhtml", X, ch[0][3]), ("nav", "nav.xhtml", X, _xhtml("n" + tag, f'<nav><ol><li><a href="ch1.xhtml">one {tag}</a></li></ol></nav>'))]
+        return _epub_pkg(tag, items, ["ch1", "ch2", "ch3", "ch2"], md), {"has": ["p1" + tag], "not": []}
+    if variant == "covers":
+        md += '<meta name="cover" content="c2"/>'
+        items = ch + [("c1", "img/cover.png", "image/png", _png(9)), ("c2", "img/front.png", "image/png", _png(10)), ("c3", "img/cover-image.png", "image/png", _png(11))]
+        chx = ("ch0", "ch0.xhtml", X, _xhtml("c0" + tag, f'<p>p0{tag}</p><img src="img/cover.png" alt="a"/><img src="img/front.png" alt="b"/><img src="img/cover-image.png" alt="c"/>'))
+        return _epub_pkg(tag, [chx] + items, ["ch0", "ch1", "ch2"], md, {"c3": ' properties="cover-image"'}), {"has": has, "not": []}
+    raise ValueError(variant)
+
+
+def html_multi(variant: str) -> tuple[bytes, dict]:
+    """HTML with several candidates for title / charset / base / language (first one wins, in document order)."""
+    tag = "isohtmlmulti" + variant
+    if variant == "titles":
+        head = f'<title>first {tag}</title><title>second {tag}</title><meta property="og:title" content="og {tag}"><meta name="title" content="meta {tag}">'
+    elif variant == "metas":
+        head = (f'<title>t {tag}</title><meta charset="utf-8"><meta charset="windows-1251"><meta http-equiv="Content-Type" content="text/html; charset=iso-8859-7">'
+                f'<meta name="author" content="a1 {tag}"><meta name="author" content="a2 {tag}"><meta name="description" content="d1 {tag}"><meta name="description" content="d2 {tag}">'
+                f'<meta name="keywords" content="k1,{tag}"><meta name="keywords" content="k2,{tag}"><base href="http://a.example/"><base href="http://b.example/">')
+    else:
+        head = f'<title>t {tag}</title>'
+    raw = (f'<html lang="en" lang="de"><head>{head}</head><body><h1 id="x">h {tag}</h1><p id="x">{tag} café</p><p id="x">end{tag}</p></body></html>').encode("utf-8")
+    return raw, {"has": [tag, "end" + tag], "not": []}
+
+
+# ------------------------------------------------------------------------------------------------------------ markup that ends before it is closed
+UNBALANCED_FORMS = ["nested-table-open", "table-cell-open", "list-open", "script-open", "style-open", "noscript-open", "comment-open", "title-open", "balanced"]
+
+
+def _unbalanced_body(tag: str, form: str) -> str:
+    """A content document: a well-formed table followed by text, then (unless balanced) a construct that is opened and never closed."""
+    good = (f'<h1>h {tag}</h1><table><tr><td>a {tag}</td><td>b</td></tr><tr><td>c</td><td>d</td></tr></table><p>after table {tag}</p>'
+            f'<ul><li>item {tag}</li></ul><p>end{tag}</p>')
+    tail = {
+        "nested-table-open": f"<table><tr><td>outer {tag}<table><tr><td>inner {tag}",
+        "table-cell-open": f"<table><tr><td>cell {tag}",
+        "list-open": f"<ol><li>one {tag}<ul><li>two {tag}",
+        "script-open": f"<script>var s = '{tag}';",
+        "style-open": f"<style>p {{ color: red }} /* {tag} */",
+        "noscript-open": f"<noscript><p>ns {tag}",
+        "comment-open": f"<!-- comment {tag}",
+        "title-open": f"<title>late title {tag}",
+        "balanced": "",
+    }[form]
+    return good + tail
+
+
+def unbalanced(kind: str, form: str) -> tuple[bytes, dict]:
+    """kind in epub / epub-last / html / mhtml.  'epub': [ch1 well-formed table + text, ch2 ends inside the unclosed construct (text/html, no end tags)];
+    'epub-last': the unclosed chapter comes first and a well-formed chapter with a table follows it."""
+    tag = f"isounb{kind.replace('-', '')}{form.replace('-', '')}"
+    if kind in ("epub", "epub-last"):
+        X = "application/xhtml+xml"
+        good = _xhtml("g" + tag, _unbalanced_body(tag + "g", "balanced"))
+        bad = ("<html><head><title>b" + tag + "</title></head><body>" + _unbalanced_body(tag + "b", form)).encode()
+        md = f'<dc:title>title {tag}</dc:title><dc:language>en</dc:language><dc:identifier id="uid">urn:uuid:{tag}</dc:identifier>'
+        items = [("good", "good.xhtml", X, good), ("bad", "bad.html", "text/html", bad)]
+        spine = ["good", "bad"] if kind == "epub" else ["bad", "good"]
+        return _epub_pkg(tag, items, spine, md), {"has": ["end" + tag + "g"], "not": []}
+    body = _unbalanced_body(tag, form)
+    if kind == "html":
+        return ("<html><head><title>t" + tag + "</title></head><body>" + body).encode(), {"has": ["end" + tag], "not": []}
+    if kind == "mhtml":
+        raw = ("From: <Saved by verif>\r\nSubject: " + tag + "\r\nMIME-Version: 1.0\r\nContent-Type: multipart/related; type=\"text/html\"; boundary=\"----isoUNB\"\r\n\r\n"
+               "------isoUNB\r\nContent-Type: text/html; charset=utf-8\r\nContent-Transfer-Encoding: 8bit\r\nContent-Location: http://iso.example/u.html\r\n\r\n"
+               "<html><head><title>t" + tag + "</title></head><body>" + body + "\r\n------isoUNB--\r\n").encode("ascii")
+        return raw, {"has": ["end" + tag], "not": []}
+    raise ValueError(kind)
+
+
+# ------------------------------------------------------------------------------------------------------------ names only the MIME fallback can decide
+# extensions no routing table of a document library is likely to list, that some MIME database may know (as text, as something else, or not at all)
+MIME_ONLY_EXTS = ["log", "text", "conf", "cfg", "ini", "lst", "asc", "diff", "patch", "py", "c", "h", "bat", "ksh", "pl", "tex", "rst", "yaml", "yml", "toml",
+                  "xml", "xsl", "svg", "css", "js", "mjs", "ics", "vcf", "srt", "vtt", "emf", "vml", "bin", "rels", "properties", "nfo", "out", "err", "lock"]
+
+
+def mime_members(variant: str) -> tuple[bytes, dict]:
+    """ZIP / tar archives whose members carry extensions that only a MIME database can decide (next to one routed member)."""
+    tag = "isomimezip" + variant
+    exts = MIME_ONLY_EXTS[::2] if variant.endswith("A") else MIME_ONLY_EXTS[1::2]
+    members = [("notes/readme.md", f"# {tag} readme end{tag}\n".encode())]
+    for i, e in enumerate(exts):
+        members.append((f"logs/server{i}.{e}", f"{tag} member {e} line one\nline two\n".encode()))
+        members.append((f"UPPER{i}.{e.upper()}", f"{tag} MEMBER {e}\n".encode()))
+    if variant.startswith("tar"):
+        import tarfile
+        buf = io.BytesIO()
+        with tarfile.open(fileobj=buf, mode="w", format=tarfile.USTAR_FORMAT) as t:
+            for n, d in members:
+                ti = tarfile.TarInfo(n)
+                ti.size, ti.mtime, ti.mode = len(d), 981173106, 0o644
+                t.addfile(ti, io.BytesIO(d))
+        return buf.getvalue(), {"has": [tag], "not": []}
+    return _zip(members), {"has": [tag], "not": []}
+
+
+def route_names(variant: str) -> tuple[bytes, dict]:
+    """Not a document: a list of path strings whose routing answers (is_supported_file, get_extractor) are asked as a history step."""
+    exts = MIME_ONLY_EXTS if variant == "mime-only" else ["txt", "md", "docx", "pdf", "tar.gz", "LOG", "Text", "zzz", "unknownext", ""]
+    names = []
+    for e in exts:
+        names += [f"var/app.{e}", f"Shared Documents/Q3/report v2.{e.upper()}", f"a.b.{e}"]
+    return "\n".join(names).encode(), {"has": [], "not": []}
+
+
 # ------------------------------------------------------------------------------------------------------------ mail / web archives
 def eml(variant: str) -> tuple[bytes, dict]:
     """A / B: the same Message-ID, MIME boundary, Content-ID and attachment file name, different content;
@@ -414,6 +575,13 @@ def html(variant: str) -> tuple[bytes, dict]:
     return raw, {"has": [tag, "end" + tag], "not": []}
 
 
+def plain(variant: str) -> tuple[bytes, dict]:
+    tag = "isoplain" + variant
+    if variant == "csv":
+        return f"name,value\n{tag},1\nend{tag},2\n".encode(), {"has": [tag, "end" + tag], "not": []}
+    return f"{tag} first line\nend{tag}\n".encode(), {"has": [tag, "end" + tag], "not": []}
+
+
 def archive(variant: str) -> tuple[bytes, dict]:
     """A / B: ZIP archives with identical member names (a.txt, d/b.rtf, c.docx) and different member content."""
     tag = "isozip" + variant
@@ -440,6 +608,16 @@ FAMILIES = {
     "mhtml": ("mhtml", mhtml, ".mhtml", ["A", "B"]),
     "html": ("html", html, ".html", ["cpA", "cpB", "cpC", "cpD", "cpE"]),
     "zip": ("zip", archive, ".zip", ["A", "B"]),
+    "plain": ("txt", plain, ".txt", ["txt", "csv"]),
+    "epub-multi": ("epub", epub_multi, ".epub", ["navs", "navs2", "meta", "dupid", "covers"]),
+    "html-multi": ("html", html_multi, ".html", ["titles", "metas", "ids"]),
+    "unb-epub": ("epub", lambda v: unbalanced("epub", v), ".epub", UNBALANCED_FORMS),
+    "unb-epub-last": ("epub", lambda v: unbalanced("epub-last", v), ".epub", UNBALANCED_FORMS),
+    "unb-html": ("html", lambda v: unbalanced("html", v), ".html", UNBALANCED_FORMS),
+    "unb-mhtml": ("mhtml", lambda v: unbalanced("mhtml", v), ".mhtml", UNBALANCED_FORMS),
+    "zip-mime": ("zip", mime_members, ".zip", ["zipA", "zipB"]),
+    "tar-mime": ("zip", mime_members, ".tar", ["tarA", "tarB"]),
+    "route": ("route", route_names, ".names", ["mime-only", "mixed"]),
 }
 # the variants of a family that are the *risky* forms (optional part absent / only referenced) and their control twin
 OPTIONAL_ABSENT = {("docx", "hfdangling"): "hfnone", ("docx", "nometa"): "hfnone", ("docx", "notesdangling"): "notesA", ("docx", "imgdangling"): "imgA",
@@ -456,9 +634,26 @@ def _rtf_variant(v: str):
     return (None if cp == "none" else int(cp)), (form or "plain")
 
 
+def feature(src, kind: str = "") -> str:
+    """Mechanism-level name of a source: family + what is varied (never the individual variant), e.g. rtf-cp, docx-hf, odt-optional-parts."""
+    import re
+    if src[1] == "drop":
+        return f"{kind or 'package'}-optional-parts-removed"
+    fam, var = src[1], str(src[2]).split(":")[0]
+    fixed = {"rtf-cp": "rtf-cp", "epub-multi": "epub-first-match-candidates", "html-multi": "html-first-match-candidates", "plain": "plain",
+             "zip-mime": "archive-mime-fallback-members", "tar-mime": "archive-mime-fallback-members", "route": "router-mime-fallback-names",
+             "unb-epub": "epub-unclosed-markup", "unb-epub-last": "epub-unclosed-markup", "unb-html": "html-unclosed-markup", "unb-mhtml": "mhtml-unclosed-markup"}
+    if fam in fixed:
+        return fixed[fam]
+    if var in ("meta", "nometa", "emptymeta", "nostyles", "bare", "plain"):
+        return fam + "-optional-parts"
+    stem = re.sub(r"(A|B|C|D|E|dangling|none|other|inline)$", "", var)
+    return fam + ("-" + stem if stem else "")
+
+
 def all_sources() -> list[tuple[str, list]]:
     """[(kind, source)] of every family x variant."""
-    return [(spec[0], ["iso", fam, v]) for fam, spec in FAMILIES.items() for v in spec[3]]
+    return [(spec[0], ["iso", fam, v]) for fam, spec in FAMILIES.items() for v in spec[3] if spec[0] != "route"]
 
 
 def groups() -> list[dict]:
@@ -481,6 +676,22 @@ def groups() -> list[dict]:
         g("html:high-bytes/charset", "html", ["cpA", "cpB", "cpC", "cpD", "cpE"]),
         g("zip:member-name/archive", "zip", ["A", "B"]),
     ]
+    out += [
+        g("epub:first-match-candidates/manifest-order", "epub-multi", FAMILIES["epub-multi"][3]),
+        g("html:first-match-candidates/document-order", "html-multi", FAMILIES["html-multi"][3]),
+        g("epub:unclosed-markup/parser-state", "unb-epub", UNBALANCED_FORMS),
+        g("epub:unclosed-markup-first/parser-state", "unb-epub-last", UNBALANCED_FORMS),
+        g("html:unclosed-markup/parser-state", "unb-html", UNBALANCED_FORMS),
+        g("mhtml:unclosed-markup/parser-state", "unb-mhtml", UNBALANCED_FORMS),
+    ]
+    # names only the MIME fallback decides, as archive members and as routing questions, next to the documents whose (lazily imported)
+    # extractors could register such names: the answer must not depend on what was extracted before
+    lazy = [("txt", ["iso", "plain", "txt"]), ("txt", ["iso", "plain", "csv"]), ("html", ["iso", "html", "cpA"]), ("xlsx", ["iso", "xlsx", "sstA"]),
+            ("docx", ["iso", "docx", "hfnone"]), ("odt", ["iso", "odt", "imgA"]), ("epub", ["iso", "epub", "A"]), ("eml", ["iso", "eml", "A"])]
+    out.append({"name": "archive:mime-fallback-member-names/process-mime-table",
+                "members": [("zip", ["iso", "zip-mime", "zipA"]), ("zip", ["iso", "tar-mime", "tarB"]), ("zip", ["iso", "zip-mime", "zipB"]), ("zip", ["iso", "tar-mime", "tarA"])] + lazy})
+    out.append({"name": "router:mime-fallback-names/process-mime-table",
+                "members": [("route", ["iso", "route", "mime-only"]), ("route", ["iso", "route", "mixed"])] + lazy})
     for k in ("odt", "ods", "odp", "odg"):
         out.append(g(f"{k}:picture-name/package", k, ["imgA", "imgB", "imgdangling"]))
         out.append(g(f"{k}:optional-parts/package", k, ["meta", "nometa", "emptymeta", "nostyles", "bare"]))
@@ -571,19 +782,22 @@ def drop_parts(data: bytes, names: list[str]) -> bytes:
 
 
 def dropped_sources(sources: dict, kinds=None, per_kind: int = 2) -> list[tuple[str, list]]:
-    """[(kind, ["iso", "drop", src, parts])] for the first generated / fixture documents of each ZIP kind of ``sources``
+    """[(kind, ["iso", "drop", src, parts])] for the first generated (else small fixture) documents of each ZIP kind of ``sources``
     (a ``corpus.all_sources`` dict): one source per optional-part set that really removes something."""
     out = []
     for kind, partsets in OPTIONAL_PARTS.items():
         if kinds and kind not in kinds:
             continue
         n = 0
-        for src in sources.get(kind, []):
-            if src[0] not in ("gen", "fx") or (src[0] == "gen" and src[3]):
-                continue
+        # generated documents first (small); fixtures only when the kind has no generator, and then only small ones
+        cands = [s for s in sources.get(kind, []) if s[0] == "gen" and not s[3]] or [s for s in sources.get(kind, []) if s[0] == "fx"]
+        for src in cands:
             try:
                 from vlib import corpus
-                names = set(zipfile.ZipFile(io.BytesIO(corpus.load(src))).namelist())
+                data = corpus.load(src)
+                if len(data) > 200_000:
+                    continue
+                names = set(zipfile.ZipFile(io.BytesIO(data)).namelist())
             except Exception:
                 continue
             for ps in partsets:
